@@ -12,7 +12,10 @@ class Job:
 
     def __init__(self, name, fn=None, engine='sx', W=136, params=None, budget_s=900, max_paths=200000,
                  timeout_ms=120000, allow_symmul=False, setup=None, ch_file=None, ch_func=None, ch_timeout=120,
-                 ch_args=None, note='', incremental=True, optimistic=False):
+                 ch_args=None, note='', incremental=True, optimistic=False, known_finding=None):
+        # known_finding (CrossHair jobs): this condition states the specification WITHOUT the listed deviation; a replayed
+        # counterexample is the exhibit of that listed finding (its sibling condition 'spec or deviation' must be confirmed)
+        self.known_finding = known_finding
         self.incremental = incremental
         self.optimistic = optimistic
         self.name, self.fn, self.engine, self.W = name, fn, engine, W
